@@ -244,6 +244,36 @@ def run(ctx):
         opts = arc_opts(mdl) if cname == 'Arc' else {}
         ob('R07.5').run(f, '%s.ilength forwards its arguments' % cname, th5, judge5, allowed_raises=('AssertionError', 'ValueError'), opts=opts)
 
+    # concrete straight-but-unevenly-parameterised Beziers (all control points on one line, speed not constant): whatever route
+    # ilength takes, a parameter it computes itself must satisfy length(0, t) == s for the curve's real arc length
+    shapes = [('Line', [0, 4], lambda t: 4 * t, 4), ('QuadraticBezier', [0, 0, 2], lambda t: 2 * t * t, 2),
+              ('CubicBezier', [0, 0, 0, 3], lambda t: 3 * t * t * t, 3), ('CubicBezier', [0, 1, 2, 3], lambda t: 3 * t, 3)]
+    for cname, pts, arc, total in shapes:
+        f = mdl.func('path.%s.ilength' % cname)
+
+        def th6(it, cname=cname, pts=pts, arc=arc):
+            it.call_hooks[Q] = lambda it2, a, kw: 'INV'
+
+            def length(it2, a, kw):
+                t0 = to_rat(kw.get('t0', a[1] if len(a) > 1 else 0))
+                t1 = to_rat(kw.get('t1', a[2] if len(a) > 2 else 1))
+                return arc(t1) - arc(t0)
+            it.call_hooks['path.%s.length' % cname] = length
+            seg = it.construct('path.' + cname, *[Rat.const(x) for x in pts])
+            return it.call_method(seg, 'ilength', S)
+
+        def judge6(v, arc=arc):
+            if isinstance(v, str) and v == 'INV':
+                return True, ''
+            try:
+                t = to_rat(v)
+            except Exception:
+                return None, 'returns %r' % (v,)
+            ok = (arc(t) - S).is_zero()
+            return ok, '' if ok else 'returns t = %s without inverting the arc length: length(0, t) = %s, not s' % (short(t, 30), short(arc(t), 40))
+        ob('R07.5').run(f, '%s%r.ilength(s) inverts the arc length' % (cname, tuple(pts)), th6, judge6, allowed_raises=('AssertionError', 'ValueError'),
+                        opts={'presign': [(S, '+'), (S - total, '-')]})
+
 
 def _is_midpoint(e):
     """(a + b)/2 with names a, b -> (a, b)"""
